@@ -5,6 +5,7 @@ mod gen;
 mod interval_ops;
 mod stat_ops;
 mod prop_ops;
+mod prog_ops;
 
 use enc::*;
 use std::io::Write;
@@ -74,6 +75,7 @@ fn gen(prop: &str, tier: &str, seed: u64) -> Vec<String> {
         "C17" => prop_ops::c17(&mut out, &mut rng, tier),
         "C03" => prop_ops::c03(&mut out, &mut rng, tier),
         "C12" => prop_ops::c12(&mut out, &mut rng, tier),
+        "C08" => prog_ops::c08(&mut out, &mut rng, tier),
         "C01" => stat_ops::c01(&mut out, &mut rng, tier),
         "C05" => stat_ops::c05(&mut out, &mut rng, tier),
         "C04" => stat_ops::c04(&mut out, &mut rng, tier),
